@@ -187,6 +187,8 @@ def canon(t, subst, counter):
         return ('ld', 0, canon(t[2], subst, counter))
     if k == 'q':
         return ('q', t[1], canon(t[2], subst, counter), tuple(canon(a, subst, counter) for a in t[3]), None if t[4] is None else max(t[4], 0))
+    if k == 'ctor' and len(t) == 3 and isinstance(t[1], str) and t[1].replace('const ', '').startswith('std::optional<'):
+        return ('ctor', 'std::optional<>', tuple(canon(x, subst, counter) if isinstance(x, tuple) else x for x in t[2]))     # however the type is spelled
     return tuple(canon(x, subst, counter) if isinstance(x, tuple) else x for x in t)
 
 
@@ -268,18 +270,25 @@ def deliveries(seg):
     push_back(pair) (the pair's second possibly assigned afterwards through the reference emplace_back returned), or a store into
     the caller's own range element"""
     out = []
+    vf = getattr(seg.L.r, 'value', None)
+
+    def as_optional(v):
+        # emplace_back(key, stored_value): the pair's optional is constructed from the value (implicit conversion)
+        if vf and is_ld(v) and isinstance(v[2], tuple) and len(v[2]) == 3 and v[2][0] == 'fld' and v[2][2] == vf:
+            return ('ctor', 'std::optional<value_type>', (v,))
+        return v
     for e in seg.effects:
         if e.kind == 'OUT_CALL' and e.name in ('emplace_back', 'push_back') and len(e.args) == 2:
-            out.append([e.args[0], e.args[1], e, getattr(e, 'res', None)])
+            out.append([e.args[0], as_optional(e.args[1]), e, getattr(e, 'res', None)])
         elif e.kind == 'OUT_WR' and not (isinstance(e.loc, tuple) and e.loc[0] == 'p'):
             loc = e.loc
             hit = None
             if isinstance(loc, tuple) and loc[0] == 'fld' and loc[2] == 'second':
                 hit = next((d for d in out if d[3] is not None and loc[1] == d[3]), None)
             if hit is not None:
-                hit[1] = e.val            # slot.second = r  on the element just appended
+                hit[1] = as_optional(e.val)            # slot.second = r  on the element just appended
             else:
-                out.append([None, e.val, e, None])
+                out.append([None, as_optional(e.val), e, None])
     return [tuple(d[:3]) for d in out]
 
 
@@ -397,6 +406,20 @@ def describe_diff(only_r, only_s):
     return short, 'paths only in the range form: %s; only in the single form: %s' % ([brief(x) for x in only_r][:2], [brief(x) for x in only_s][:2])
 
 
+def from_pointer(dv, rt):
+    """the lookup helper returned a pointer to the stored value (`return &e.m_value;` / nullptr) and the caller delivered a copy of
+    what it points to (or the empty answer for nullptr)"""
+    if rt in (('int', 0), ('global', 'nullptr'), ('nullptr',)) or (isinstance(rt, tuple) and rt and rt[0] == 'cast' and rt[-1] == ('int', 0)):
+        return empty_result(dv)
+    if isinstance(rt, tuple) and len(rt) == 2 and rt[0] == 'addr':
+        loc = rt[1]
+        v = dv
+        if isinstance(v, tuple) and len(v) == 3 and v[0] == 'ctor' and len(v[2]) == 1:
+            v = v[2][0]
+        return is_ld(v) and v[2] == loc
+    return False
+
+
 def check_plumbing(res, prop, cm, roles, m, top, b):
     seg = b.seg
     if b.in_loop is None:
@@ -418,7 +441,8 @@ def check_plumbing(res, prop, cm, roles, m, top, b):
             dk, dv, o = dl[0]
             # what an inlined lookup helper returned is what gets delivered; with the lookup written out in the loop itself there
             # is no such return and the delivered value is judged by R-SIB-BODY (same outcome as the single form) and C01
-            same_val = (not res_terms) or dv == res_terms[-1] or (empty_result(dv) and empty_result(res_terms[-1]))
+            same_val = (not res_terms) or dv == res_terms[-1] or (empty_result(dv) and empty_result(res_terms[-1])) \
+                or from_pointer(dv, res_terms[-1])
             if o.kind == 'OUT_CALL':
                 good = dk == key and same_val
             elif o.kind == 'OUT_WR':
@@ -560,7 +584,7 @@ def rule_c01(an, res):
                         res.ob('R-LOOKUP-PROV', ok=False)
                         V(res, prop, 'R-LOOKUP-PROV', cm, m.key(), 'a range element is answered / handled without consulting the index for it',
                           site_of_seg(s2, m), 'iteration path [%s]' % ' '.join(s2.valuation()))
-                if k in ('INSERT', 'FIND', 'ERASE') and not ops.find_bodies(top, m) and not top.loops and not ops.empty_range_exit(top, m):
+                if k in ('INSERT', 'FIND', 'ERASE') and not ops.find_bodies(top, m) and not top.loops and not ops.empty_range_exit(top, m) and not ops.empty_container_exit(top, m):
                     res.ob('R-LOOKUP-PROV', ok=False)
                     V(res, prop, 'R-LOOKUP-PROV', cm, m.key(), 'path does not consult the index for its key', site_of_seg(top, m), '')
                 for seg in top.all_segments():
